@@ -310,13 +310,16 @@ META = {
         explanation="E1 rules over src/bin/hpbf.rs.",
         not_decided=["behaviour of the selected back end"]),
     "C17": dict(
-        technique="dominance rule on raw allocation results: lexical next-statement null test with a diverging null branch, for every allocation call in the tree",
+        technique="dominance rule on raw allocation results (lexical next-statement null test with a diverging null branch; def-use and dominators on MIR) for every allocation call in the tree; provenance rule for the layout operand (overflow-checked Layout::array of the count that becomes self.size)",
         claim="Proves, for every call of alloc/alloc_zeroed/realloc in the library, that the result is bound, null-tested by the immediately following "
               "statement, that the null branch is a single diverging call, and that nothing else happens in between (ALLOC-NULL, 4 obligations per site); "
               "no other raw allocation API is used. Since the test is the lexically next statement after the binding `let`, it dominates every use: the "
-              "rule is sufficient for 'a null tape is never used', which is the property.",
+              "rule is sufficient for 'a null tape is never used'. For 'nor a stale/undersized one': the layout of every tape allocation is "
+              "Layout::array::<C>(n).unwrap() with n the value stored into self.size (ALLOC-LAYOUT, +/MIR), so a request whose byte size overflows panics "
+              "instead of allocating a wrapped, too small block; copy/free ordering and field updates are TAPE-PAIR/MIR and GROW-BOUNDS under C09.",
         note="Trusted: the syn parser; Rust's lexical scoping (a `let`-bound pointer has no use before its binding statement ends); handle_alloc_error/abort/panic! diverge; "
-             "Layout::array(..).unwrap() panics on overflow (an allowed outcome); Vec growth aborts through std.",
+             "Layout::array(..).unwrap() panics on overflow (an allowed outcome); Vec growth aborts through std. The interpreter context of bcint (build_context) "
+             "sizes its layout with plain arithmetic on size_of constants and the bytecode's temp count, which is bounded by the program length: not checked for overflow.",
         explanation="E1: every allocation call is located, its binding `let` and the next statement are matched against the accepted shape; anything else fails closed.",
         not_decided=[]),
 }
@@ -326,10 +329,12 @@ def run_c17(res, tier):
     import rt
     ast = load_ast()
     n = rt.run_alloc_null(res, ast)
+    rt.run_alloc_layout(res, ast)
     import mirrules
     from mir import load_facts
     fx = load_facts()
     n2 = mirrules.run_alloc_null_mir(res, fx)
+    mirrules.run_alloc_layout_mir(res, fx)
     if tier == "thorough":
         fxr = load_facts(release=True)
         res.notes.append("thorough: MIR rule re-evaluated on the release profile (debug assertions off)")
@@ -347,6 +352,7 @@ def run_c09(res, tier):
     ast = load_ast()
     rt.run_tape_rules(res, ast)
     rt.run_alloc_null(res, ast)
+    rt.run_alloc_layout(res, ast)
     import grow
     grow.run_grow(res, ast)
     import mirrules
